@@ -1,11 +1,19 @@
 import AcraModel.Sql.LiteralLemmas
 import AcraModel.Sql.Ident
+import AcraModel.Sql.ExprRoundTrip
+import AcraModel.Sql.ExprSound
+import AcraModel.Sql.ExprSubst
+import AcraModel.Sql.ExprConverse
 /-!
 # C13 — re-serialised statements mean the same as the statements received
 
 Property theorems only. Part 1: the literal codec – what `SQLVal.Format` prints for a string value is
 read back by the tokenizer as the same bytes, for every byte string, whatever follows the literal.
 (The escape table and the `\x` prefix rule are regenerated from `sqltypes/value.go`.)
+Part 2: the expression fragment (`Sql/Expr.lean`) – the printer `format` (no parentheses of its own, only `ParenExpr`
+nodes print them) and the precedence-climbing parser `parseExpr` over the regenerated `%left/%right` table of `sql.y`:
+every tree in the image of the parser (`Producible`) is read back from its printed form, also after any substitution of
+`SQLVal` leaves; a tree that is not producible (an operand of too low a level without its `ParenExpr`) is not.
 -/
 namespace AcraModel.Props.C13
 open AcraModel AcraModel.Sql.Literal Generated.SqlLiterals
@@ -81,5 +89,230 @@ open AcraModel.Sql.Ident in
 /-- non-vacuity: the name a"b"" in PostgreSQL quotes, followed by a dot -/
 example : scanQuotedIdent 34 ((quoteIdent 34 [97, 34, 98, 34, 34]).tail ++ [46, 120]) = some ([97, 34, 98, 34, 34], [46, 120]) :=
   ident_roundtrip _ _ _ (by decide) (by decide)
+
+/-! # Part 2: the expression fragment -/
+
+section Expr
+open AcraModel.Sql.Expr Generated.SqlPrec
+
+/-! ## facts about the regenerated precedence table and rule tables -/
+
+/-- **strict order of the levels**: in the `%left/%right` block of `sql.y`, OR < AND < NOT < (BETWEEN) < comparison <
+`|` < `&` < shifts < `+ -` < `* / DIV % MOD` < `^` < unary – the positions the model's parser and the proofs use -/
+theorem fact_levels_strict :
+    ["OR", "AND", "NOT", "BETWEEN", "'='", "'|'", "'&'", "SHIFT_LEFT", "'+'", "'*'", "'^'", "UNARY"].map lvlTok =
+      [3, 4, 5, 6, 7, 8, 9, 10, 11, 12, 13, 14] := by decide
+
+/-- the tokens that share a level: all comparison operators with IS, LIKE, REGEXP; `+` with `-`; `*` with `/`, DIV, `%`,
+MOD; `<<` with `>>`; `~` with UNARY (the `%prec` of the other prefix operators) -/
+theorem fact_levels_shared :
+    ["'='", "'<'", "'>'", "LE", "GE", "NE", "NULL_SAFE_EQUAL", "IS", "LIKE", "REGEXP"].map lvlTok = List.replicate 10 lCmp ∧
+    ["'+'", "'-'"].map lvlTok = [11, 11] ∧ ["'*'", "'/'", "DIV", "'%'", "MOD"].map lvlTok = List.replicate 5 12 ∧
+    ["SHIFT_LEFT", "SHIFT_RIGHT"].map lvlTok = [10, 10] ∧ ["'~'", "UNARY"].map lvlTok = [lUnary, lUnary] := by decide
+
+/-- **associativity per level**: every binary level of the fragment is `%left`, the two prefix levels are `%right` -/
+theorem fact_assoc :
+    [lOr, lAnd, lCmp, 8, 9, 10, 11, 12, 13].map assocAt = List.replicate 9 "left" ∧
+    [lNot, lUnary].map assocAt = ["right", "right"] := by decide
+
+/-- every `value_expression TOK value_expression` rule of the grammar is a binary operator of the model, with the
+operator constant the rule's action uses and the text `ast.go` gives it (and the model has no other) -/
+theorem fact_binary_rules :
+    binaryExprRules.map (fun r => (r.1, r.2.1)) =
+      [("'&'", "BitAndStr"), ("'|'", "BitOrStr"), ("'^'", "BitXorStr"), ("'+'", "PlusStr"), ("'-'", "MinusStr"),
+       ("'*'", "MultStr"), ("'/'", "DivStr"), ("DIV", "IntDivStr"), ("'%'", "ModStr"), ("MOD", "ModStr"),
+       ("SHIFT_LEFT", "ShiftLeftStr"), ("SHIFT_RIGHT", "ShiftRightStr")] ∧
+    binaryExprRules.all (fun r => Sym.all.any (fun s => s.yacc == r.1 && (s.binop.map BinOp.const) == some r.2.1)) = true ∧
+    BinOp.all.all (fun o => o.sym.binop == some o && o.sym.text == o.text) = true := by decide
+
+/-- the prefix operator rules: token, precedence (`%prec UNARY`, `'~'` its own, same level), constant, text; exactly the
+rules for `+` and `-` fold an `IntVal` operand into a signed literal -/
+theorem fact_unary_rules :
+    unaryExprRules.map (fun r => (r.1, r.2.1, r.2.2.1)) =
+      [("BINARY", "UNARY", "BinaryStr"), ("UNDERSCORE_BINARY", "UNARY", "UBinaryStr"), ("'+'", "UNARY", "UPlusStr"),
+       ("'-'", "UNARY", "UMinusStr"), ("'~'", "'~'", "TildaStr"), ("'!'", "UNARY", "BangStr")] ∧
+    unaryExprRules.all (fun r => lvlTok r.2.1 == lUnary) = true ∧
+    UnOp.all.all (fun o => o.sym.unop == some o) = true ∧
+    UnOp.all.map UnOp.folds = [true, true, false, false, false, false] ∧
+    UnOp.all.map UnOp.text = ["+", "-", "~", "!", "binary ", "_binary "] := by decide
+
+/-- rule `compare`, the alternatives of `condition`, `expression` and `is_suffix` are the ones the model's parser
+implements (IN, ILIKE, EXISTS and DEFAULT are outside the fragment); no alternative has a `%prec` (factgen fails on one) -/
+theorem fact_condition_rules :
+    compareRules.map (·.1) = ["'='", "'<'", "'>'", "LE", "GE", "NE", "NULL_SAFE_EQUAL"] ∧
+    conditionRules.map (fun r => (r.1, r.2.1)) =
+      [("value_expression compare value_expression", "ComparisonExpr"),
+       ("value_expression IN col_tuple", "ComparisonExpr"),
+       ("value_expression NOT IN col_tuple", "ComparisonExpr"),
+       ("value_expression LIKE value_expression like_escape_opt", "ComparisonExpr"),
+       ("value_expression ILIKE value_expression like_escape_opt", "ComparisonExpr"),
+       ("value_expression NOT LIKE value_expression like_escape_opt", "ComparisonExpr"),
+       ("value_expression NOT ILIKE value_expression like_escape_opt", "ComparisonExpr"),
+       ("value_expression REGEXP value_expression", "ComparisonExpr"),
+       ("value_expression NOT REGEXP value_expression", "ComparisonExpr"),
+       ("value_expression BETWEEN value_expression AND value_expression", "RangeCond"),
+       ("value_expression NOT BETWEEN value_expression AND value_expression", "RangeCond"),
+       ("EXISTS subquery", "ExistsExpr")] ∧
+    expressionRules =
+      [("condition", ""), ("expression AND expression", "AndExpr"), ("expression OR expression", "OrExpr"),
+       ("NOT expression", "NotExpr"), ("expression IS is_suffix", "IsExpr"), ("value_expression", ""),
+       ("DEFAULT default_opt", "Default")] ∧
+    isSuffixRules.map (·.1) = ["NULL", "NOT NULL", "TRUE", "NOT TRUE", "FALSE", "NOT FALSE"] := by decide
+
+def symsStr (ss : List Sym) : String := " ".intercalate (ss.map Sym.text)
+
+/-- operator text of a constant of `ast.go` as the regenerated rule tables give it -/
+def genText (c : String) : Option String :=
+  match compareRules.find? (fun r => r.2.1 == c) with
+  | some r => some r.2.2
+  | none =>
+    match conditionRules.find? (fun r => r.2.2.1 == c) with
+    | some r => some r.2.2.2
+    | none => (isSuffixRules.find? (fun r => r.2.1 == c)).map (·.2.2)
+
+/-- the operator texts the model's printer writes are the constants of `ast.go` (`"not like"`, `"is not null"`, …) -/
+theorem fact_operator_texts :
+    CmpOp.all.all (fun o => genText o.const == some (symsStr o.syms)) = true ∧
+    IsOp.all.all (fun o => genText o.const == some ("is " ++ symsStr o.syms)) = true ∧
+    Sym.all.all (fun s => match s.cmpop with
+      | some o => o.syms == [s]
+      | none => true) = true := by decide
+
+/-- **the printer's format strings**: blanks around infix operators, none inside parentheses, `ParenExpr` is the only
+node that prints parentheses, a nested prefix operator is separated by a blank (`- -a`, never `--a`) -/
+theorem fact_format_strings :
+    formatStrings =
+      [("AndExpr", ["%v and %v"]), ("OrExpr", ["%v or %v"]), ("NotExpr", ["not %v"]), ("ParenExpr", ["(%v)"]),
+       ("ComparisonExpr", ["%v %s %v", " escape %v"]), ("RangeCond", ["%v %s %v and %v"]), ("IsExpr", ["%v %s"]),
+       ("BinaryExpr", ["%v %s %v"]), ("UnaryExpr", ["%s %v", "%s%v"]), ("FuncExpr", ["%v.", "%s(%s%v)"]),
+       ("Exprs", ["%s%v"]), ("NullVal", ["null"]), ("BoolVal", ["true", "false"])] := by decide
+
+/-- a one-element parenthesised list is a `ParenExpr`; a generic call is `name(expression list)` -/
+theorem fact_paren_func_rules : parenRule = true ∧ funcRule = true := by decide
+
+/-- the `ValType` numbers of the model and the value types printed as they are (IntVal, FloatVal, HexNum; PgPlaceholder `$1` is outside the fragment) -/
+theorem fact_val_types :
+    [tyStr, tyInt, tyFloat, tyHexNum, tyHexVal, tyBitVal, tyPgEsc] = [0, 1, 2, 3, 4, 6, 7] ∧
+    (List.range 10).filter rawTy = [1, 2, 3, 8] := by decide
+
+/-! ## property theorems -/
+
+/-- **Producible trees round-trip.** For every tree in the image of Acra's expression parser – children of an operator
+node have the precedence level the grammar requires, or are leaves, calls or explicit `ParenExpr` nodes – the printed
+form (Acra's `Format`: no parentheses of its own) is read back by the parser as exactly that tree: no operand,
+operator, precedence relation or literal is lost, added or altered. -/
+theorem expr_roundtrip (t : Expr) (h : Producible t) : parseExpr (tokens (format t)) = some t := by
+  unfold parseExpr fuelFor
+  exact roundtrip_fuel t h _ (by unfold tlen toks; omega)
+
+/-- **Replacing values keeps a tree producible.** Substituting `SQLVal` leaves by other well-formed `SQLVal` leaves
+(a non-`IntVal` never becoming an `IntVal`: the grammar folds the sign of an `IntVal` under unary `+`/`-`) preserves
+producibility – the structure of the tree, which is all that producibility depends on besides the leaves, is untouched. -/
+theorem producible_subst {σ : Nat → Bytes → Nat × Bytes} (hσ : SubstOk σ) (t : Expr) (h : Producible t) :
+    Producible (subst σ t) := producible_subst_aux hσ t h
+
+/-- **Same structure apart from exactly the substituted values**: the printed form of the substituted tree parses back
+to the substituted tree. -/
+theorem subst_roundtrip {σ : Nat → Bytes → Nat × Bytes} (hσ : SubstOk σ) (t : Expr) (h : Producible t) :
+    parseExpr (tokens (format (subst σ t))) = some (subst σ t) :=
+  expr_roundtrip _ (producible_subst hσ t h)
+
+/-- **Nothing but the values changes in the text**: the printed form of the substituted tree is the printed form of the
+original with exactly the literal lexemes replaced – every keyword, operator, identifier, parenthesis and blank stays. -/
+theorem format_subst_exact (σ : Nat → Bytes → Nat × Bytes) (t : Expr) :
+    format (subst σ t) = (format t).map (substLex σ) := format_subst σ t
+
+/-- **Different producible trees never print alike**: the printer is injective on the image of the parser (so no two
+statements with different precedence relations, operands or operators share a printed form). -/
+theorem format_injective (t₁ t₂ : Expr) (h₁ : Producible t₁) (h₂ : Producible t₂)
+    (h : tokens (format t₁) = tokens (format t₂)) : t₁ = t₂ := by
+  have a := expr_roundtrip t₁ h₁
+  rw [h, expr_roundtrip t₂ h₂] at a
+  injection a with a
+  exact a.symm
+
+/-- **Everything the parser returns is producible** (for token lists as the tokenizer yields them: number tokens are
+unsigned and not empty). -/
+theorem parse_producible (ts : List Tok) (t : Expr) (hok : AllOk ts) (h : parseExpr ts = some t) : Producible t :=
+  parseExprFuel_producible hok h
+
+/-- Hence a parsed statement's expression, printed and parsed again, is the same tree – also after its values have been
+replaced. This is the statement the round-trip oracle checks on the real parser. -/
+theorem parse_print_parse (ts : List Tok) (t : Expr) (hok : AllOk ts) (h : parseExpr ts = some t)
+    {σ : Nat → Bytes → Nat × Bytes} (hσ : SubstOk σ) :
+    parseExpr (tokens (format t)) = some t ∧ parseExpr (tokens (format (subst σ t))) = some (subst σ t) :=
+  ⟨expr_roundtrip t (parse_producible ts t hok h), subst_roundtrip hσ t (parse_producible ts t hok h)⟩
+
+/-- **Exactly the producible trees round-trip.** For a tree whose `SQLVal` leaves are well-formed literals, the printed
+form parses back to the tree if *and only if* the tree is producible: every operand of too low a level that is not
+wrapped in a `ParenExpr`, and every `IntVal` directly under unary `+`/`-`, changes the statement that is read back. -/
+theorem roundtrip_iff_producible (t : Expr) (hl : LeavesOk t) :
+    parseExpr (tokens (format t)) = some t ↔ Producible t :=
+  ⟨fun h => parse_producible _ t (allOk_toks t hl) h, expr_roundtrip t⟩
+
+private def ca : Expr := .col [97]
+private def cb : Expr := .col [98]
+private def cc : Expr := .col [99]
+
+/-- **A tree that is not producible does not round-trip**: `(a or b) and c` built *without* its `ParenExpr` – an
+`OrExpr` directly under an `AndExpr` – is printed as `a or b and c` and read back as `a or (b and c)`, a different
+statement. A rewrite of the tree must therefore keep the `ParenExpr` nodes the parser put there. -/
+theorem nonproducible_counterexample :
+    ¬ Producible (.and (.or ca cb) cc) ∧
+    parseExpr (tokens (format (.and (.or ca cb) cc))) = some (.or ca (.and cb cc)) ∧
+    parseExpr (tokens (format (.and (.or ca cb) cc))) ≠ some (.and (.or ca cb) cc) := by
+  have h2 : parseExpr (tokens (format (.and (.or ca cb) cc))) = some (.or ca (.and cb cc)) := by rfl
+  refine ⟨?_, h2, ?_⟩
+  · intro h
+    cases h with
+    | and _ _ hl _ => exact absurd hl (by decide)
+  · rw [h2]; intro h; injection h with h; cases h
+
+/-- … whereas with the `ParenExpr` node the same expression is producible and is read back unchanged. -/
+theorem paren_counterpart :
+    Producible (.and (.paren (.or ca cb)) cc) ∧
+    parseExpr (tokens (format (.and (.paren (.or ca cb)) cc))) = some (.and (.paren (.or ca cb)) cc) := by
+  have hp : Producible (.and (.paren (.or ca cb)) cc) :=
+    .and (.paren (.or .col .col (by decide) (by decide))) .col (by decide) (by decide)
+  exact ⟨hp, expr_roundtrip _ hp⟩
+
+/-- a substitution that satisfies `SubstOk`: every string value becomes the hex value `X'00'`, everything else stays -/
+private def σEx : Nat → Bytes → Nat × Bytes := fun ty v => if ty = tyStr then (tyHexVal, [48, 48]) else (ty, v)
+
+/-- non-vacuity of `SubstOk` -/
+theorem substOk_example : SubstOk σEx := by
+  constructor
+  · intro ty v h
+    unfold σEx
+    by_cases hs : ty = tyStr
+    · simp only [hs, if_true]; intro hr; exact absurd hr (by decide)
+    · simp only [hs, if_false]; exact h
+  · intro ty v h
+    unfold σEx at h
+    by_cases hs : ty = tyStr
+    · simp only [hs, if_true] at h; exact absurd h (by decide)
+    · simp only [hs, if_false] at h; exact h
+
+/-- non-vacuity: `not a between -1 and f('x', b) * (c + 2) or ~d is not null` – every node kind, a signed literal, a call,
+explicit parentheses – is producible, round-trips, and so does its substituted form -/
+example :
+    let t : Expr := .or (.not (.range false ca (.val tyInt [45, 49])
+        (.bin .mult (.func [102] [.val tyStr [120], cb]) (.paren (.bin .plus cc (.val tyInt [50]))))))
+      (.is .isNotNull (.un .tilda (.col [100])))
+    Producible t ∧ parseExpr (tokens (format t)) = some t ∧
+      parseExpr (tokens (format (subst σEx t))) = some (subst σEx t) := by
+  intro t
+  have hp : Producible t := by
+    refine .or (.not (.range .col (.val (by decide)) (.bin (.func ?_) (.paren (.bin .col (.val (by decide)) (by decide)
+      (by decide))) (by decide) (by decide)) (by decide) (by decide) (by decide)) (by decide))
+      (.is (.un .col (by decide) (by decide)) (by decide)) (by decide) (by decide)
+    intro a ha
+    simp only [List.mem_cons, List.mem_nil_iff, or_false] at ha
+    rcases ha with rfl | rfl
+    · exact .val (by decide)
+    · exact .col
+  exact ⟨hp, expr_roundtrip t hp, subst_roundtrip substOk_example t hp⟩
+
+end Expr
 
 end AcraModel.Props.C13
